@@ -577,6 +577,72 @@ theorem z_crossings_sorted (num den : List K) (eps : K) (roots : List (Cx K)) :
     ((zGainCrossings num den eps roots).Pairwise fun a b => angKey a.1 ≤ angKey b.1) :=
   ⟨sortByAng_sorted _, sortByAng_sorted _⟩
 
+/-- membership in the witness list: exactly the candidates on the unit circle where `L` exists. -/
+theorem mem_circleWitnesses {num den : List K} {ws : List (Cx K)} {z r : Cx K} :
+    (z, r) ∈ circleWitnesses num den ws ↔ z ∈ ws ∧ normSq z = 1 ∧ respAt num den z = some r := by
+  unfold circleWitnesses
+  rw [List.mem_filterMap]
+  constructor
+  · rintro ⟨a, ha, h⟩
+    by_cases h1 : normSq a = 1
+    · simp only [h1, if_true, Option.map_eq_some_iff, Prod.mk.injEq] at h
+      obtain ⟨r', hr', rfl, rfl⟩ := h
+      exact ⟨ha, h1, hr'⟩
+    · simp [h1] at h
+  · rintro ⟨hz, h1, hr⟩
+    exact ⟨z, hz, by simp [h1, hr]⟩
+
+/-- the discrete stability margin check is exact: the reported response `r` is refuted precisely
+when one of the candidates lies on the unit circle and has a strictly smaller `|1 + L|`. -/
+theorem z_sm_refuted_iff (num den : List K) (ws : List (Cx K)) (r : Cx K) :
+    smRefuted num den ws r = true ↔
+      ∃ z ∈ ws, normSq z = 1 ∧ ∃ r', respAt num den z = some r' ∧
+        normSq (r' + 1) < normSq (r + 1) := by
+  unfold smRefuted bestWitness
+  constructor
+  · intro h
+    cases hb : argminBy (fun c : Cx K × Cx K => smKey c.2) (circleWitnesses num den ws) with
+    | none => simp [hb] at h
+    | some w =>
+      rw [hb] at h
+      have hlt : smKey w.2 < smKey r := by simpa using h
+      obtain ⟨hm, -⟩ := argminBy_min _ _ _ hb
+      obtain ⟨hz, h1, hr⟩ := mem_circleWitnesses.mp (show (w.1, w.2) ∈ _ from hm)
+      exact ⟨w.1, hz, h1, w.2, hr, hlt⟩
+  · rintro ⟨z, hz, h1, r', hr, hlt⟩
+    have hmem : (z, r') ∈ circleWitnesses num den ws := mem_circleWitnesses.mpr ⟨hz, h1, hr⟩
+    cases hb : argminBy (fun c : Cx K × Cx K => smKey c.2) (circleWitnesses num den ws) with
+    | none =>
+      rw [argminBy_eq_none] at hb
+      rw [hb] at hmem
+      simp at hmem
+    | some w =>
+      obtain ⟨-, hmin⟩ := argminBy_min _ _ _ hb
+      have hle : smKey w.2 ≤ smKey r' := hmin (z, r') hmem
+      have : smKey w.2 < smKey r := lt_of_le_of_lt hle hlt
+      simpa using this
+
+/-- a refuted stability margin is not the minimum of `|1 + L|` over the unit circle (whatever
+`scipy.optimize.minimize` returned, and whatever search range it was given). -/
+theorem z_sm_refuted_not_min (num den : List K) (ws : List (Cx K)) (r : Cx K)
+    (h : smRefuted num den ws r = true) : ¬ CircleMin num den r := by
+  obtain ⟨z, -, h1, r', hr, hlt⟩ := (z_sm_refuted_iff num den ws r).mp h
+  intro hmin
+  exact absurd (hmin z r' h1 hr) (not_le.mpr hlt)
+
+/-- conversely a genuine minimum over the unit circle is never refuted, by any candidate list:
+the check cannot raise an alarm on a correct stability margin. -/
+theorem z_sm_min_never_refuted (num den : List K) (r : Cx K) (hmin : CircleMin num den r)
+    (ws : List (Cx K)) : smRefuted num den ws r = false := by
+  by_contra h
+  exact z_sm_refuted_not_min num den ws r (by simpa using h) hmin
+
+/-- `CircleMin` is the statement of the property: `|1 + r|² ≤ |1 + L(z)|²` on all of `|z| = 1`. -/
+theorem circleMin_iff (num den : List K) (r : Cx K) :
+    CircleMin num den r ↔
+      ∀ z r', normSq z = 1 → respAt num den z = some r' → normSq (r + 1) ≤ normSq (r' + 1) :=
+  Iff.rfl
+
 end discrete
 
 
@@ -744,6 +810,19 @@ example : ((⟨0, 1⟩ : Cx ℚ), some (⟨-1, 0⟩ : Cx ℚ)) ∈
     by decide +kernel⟩
 example : ∀ z ∈ ([⟨0, 1⟩, ⟨0, -1⟩] : List (Cx ℚ)),
     evalC (zMag1Poly ([1, 1] : List ℚ) [1, -1, 0]) z = 0 := by decide +kernel
+
+/-- `L = 1/(z − 1/2)`: `|1+L|²` is `481/169` at `z = 3/5 + 4/5 j`, `1/9` at `z = −1` (the minimum over
+the circle) and `9` at `z = 1`; the value at `3/5 + 4/5 j` is refuted by the candidate `−1`, the value
+at `−1` is not refuted (the candidate `2` is not on the circle and is dropped). -/
+example : respAt ([1] : List ℚ) [1, -1/2] ⟨3/5, 4/5⟩ = some ⟨2/13, -16/13⟩ ∧
+    respAt ([1] : List ℚ) [1, -1/2] ⟨-1, 0⟩ = some ⟨-2/3, 0⟩ := by decide +kernel
+example : smRefuted ([1] : List ℚ) [1, -1/2] [⟨1, 0⟩, ⟨-1, 0⟩] ⟨2/13, -16/13⟩ = true := by decide +kernel
+example : smRefuted ([1] : List ℚ) [1, -1/2] [⟨3/5, 4/5⟩, ⟨1, 0⟩, ⟨2, 0⟩] ⟨-2/3, 0⟩ = false := by
+  decide +kernel
+example : ¬ CircleMin ([1] : List ℚ) [1, -1/2] ⟨2/13, -16/13⟩ :=
+  z_sm_refuted_not_min _ _ [⟨1, 0⟩, ⟨-1, 0⟩] _ (by decide +kernel)
+example : bestWitness ([1] : List ℚ) [1, -1/2] [⟨3/5, 4/5⟩, ⟨1, 0⟩, ⟨2, 0⟩, ⟨-1, 0⟩] =
+    some (⟨-1, 0⟩, ⟨-2/3, 0⟩) := by decide +kernel
 
 end examples
 
